@@ -144,3 +144,76 @@ emit(f())
 	}
 	verifAssert(vhTraceIs(run.trace, vhStr("g"), vhInt(n), vhStr("closed"), vhInt(n)), "handler-runs-after-the-called-function-returns")
 }
+
+// to-be-closed variables of a coroutine: when the coroutine dies from an error
+// every pending handler receives that error (the handler's own error replaces
+// it for the next one), when a suspended coroutine is closed every pending
+// variable of every frame — also those declared inside a protected call — is
+// closed exactly once in reverse order, and resume / close report the final
+// error
+func VerifH_C10_close_in_coroutines() { vhCoroutineCloseTrace() }
+
+func vhCoroutineCloseTrace() {
+	run := vhNewRun()
+	e := vhInt(nondetInt64("e"))
+	raiseB := nondetBool("raiseB")
+	mode := int64(verifChoose("mode", 3)) // 0 dies by error, 1 closed while suspended, 2 closed while suspended inside pcall
+	_, err := run.lua(`
+local E, raiseB, mode = ...
+local function mk(name, raise)
+  return setmetatable({}, {__close = function(_, err)
+    emit(name, err)
+    if raise then error(name .. "!", 0) end
+  end})
+end
+local co = coroutine.create(function()
+  local a <close> = mk("a", false)
+  local function inner()
+    local b <close> = mk("b", raiseB)
+    if mode == 0 then error(E, 0) end
+    coroutine.yield("suspended")
+  end
+  if mode == 2 then pcall(inner) else inner() end
+  emit("never")
+end)
+emit("resume", coroutine.resume(co))
+emit("close", coroutine.close(co))
+emit("status", coroutine.status(co))
+emit("close-again", coroutine.close(co))
+`, e, rt.BoolValue(raiseB), vhInt(mode))
+	verifAssert(err == nil, "chunk-runs")
+	T, F, nilv := rt.BoolValue(true), rt.BoolValue(false), rt.NilValue
+	var want []rt.Value
+	add := func(vs ...rt.Value) { want = append(want, vs...) }
+	final := nilv
+	if mode == 0 {
+		// dies by error: b sees E, then a sees E or b's own error
+		final = e
+		add(vhStr("b"), e)
+		if raiseB {
+			final = vhStr("b!")
+		}
+		add(vhStr("a"), final)
+		add(vhStr("resume"), F, final)
+		add(vhStr("close"), F, final)
+		add(vhStr("status"), vhStr("dead"))
+		add(vhStr("close-again"), F, final)
+	} else {
+		add(vhStr("resume"), T, vhStr("suspended"))
+		add(vhStr("b"), nilv)
+		if raiseB {
+			final = vhStr("b!")
+		}
+		add(vhStr("a"), final)
+		if raiseB {
+			add(vhStr("close"), F, final)
+			add(vhStr("status"), vhStr("dead"))
+			add(vhStr("close-again"), F, final)
+		} else {
+			add(vhStr("close"), T)
+			add(vhStr("status"), vhStr("dead"))
+			add(vhStr("close-again"), T)
+		}
+	}
+	verifAssert(vhTraceIs(run.trace, want...), "coroutine-close-trace-as-the-manual-prescribes")
+}
